@@ -3,6 +3,8 @@ package main
 import (
 	"fmt"
 	"go/ast"
+	"go/parser"
+	"sort"
 	"go/types"
 	"strings"
 )
@@ -190,6 +192,19 @@ func (x *Exec) evalCall(e *ast.CallExpr, st *State) (Value, types.Type) {
 	fv, _ := x.eval(e.Fun, st)
 	f, ok := fv.(*FuncV)
 	if !ok {
+		if x.con != nil && x.con.Opts["bltn-gate"] != "" {
+			if nt, ok := x.typeOf(e.Fun).(*types.Named); ok && nt.Obj().Name() == "bltn" {
+				ge, err := parser.ParseExpr(x.con.Opts["bltn-gate"])
+				if err != nil {
+					engineFail("bltn-gate: %v", err)
+				}
+				save := x.saveContractCtx()
+				x.contract = true
+				phi := x.evalBool(ge, st)
+				x.restoreContractCtx(save)
+				x.oblige(st, "pre", "gate@"+types.ExprString(e), phi, x.con.Opts["bltn-gate"])
+			}
+		}
 		// call through an opaque function value (field, map entry...): havoc result
 		x.noteAssume("call through an opaque function value " + types.ExprString(e.Fun) + ": result unconstrained, heap unchanged")
 		x.evalArgs(e.Args, st)
@@ -204,7 +219,8 @@ func (x *Exec) evalCall(e *ast.CallExpr, st *State) (Value, types.Type) {
 		return f.Model.Apply(x, st, args), x.typeOf(e)
 	}
 	if f.Lit != nil {
-		engineFail("call of a function literal value is not supported here: %s", types.ExprString(e))
+		x.noteAssume("call of a local function literal " + types.ExprString(e.Fun) + ": result unconstrained, heap unchanged")
+		return x.opaqueResult(e, st), x.typeOf(e)
 	}
 	name := calleeName(f.Decl)
 	// sync primitives and atomics: sequential semantics (A3)
@@ -218,6 +234,33 @@ func (x *Exec) evalCall(e *ast.CallExpr, st *State) (Value, types.Type) {
 	}
 	if c := x.lookupContract(f.Decl); c != nil {
 		return x.applyContract(c, f.Decl, e, args, st), x.typeOf(e)
+	}
+	if x.isOpaqueCallee(f.Decl) {
+		// declared opaque by the unit's contract: everything may change except the preserved
+		// heap fields (whose writers are enumerated by a separate frame obligation)
+		keep := map[string]bool{}
+		for _, k := range strings.Split(x.con.Opts["preserve"], ",") {
+			keep[strings.TrimSpace(k)] = true
+		}
+		var keys []string
+		for k := range st.heap {
+			keys = append(keys, k)
+		}
+		for _, d := range x.decls {
+			if strings.HasPrefix(d, "(declare-const ") && strings.Contains(d, "_0 ") {
+				k := strings.TrimPrefix(strings.Fields(d)[1], "")
+				k = strings.TrimSuffix(k, "_0")
+				keys = append(keys, k)
+			}
+		}
+		sort.Strings(keys)
+		for _, k := range keys {
+			if !keep[k] {
+				x.heapHavoc(st, k)
+			}
+		}
+		x.noteAssume("opaque call " + name + ": result unconstrained; heap havocked except " + x.con.Opts["preserve"])
+		return x.opaqueResult(e, st), x.typeOf(e)
 	}
 	if f.Decl.Pkg() != nil && x.L.target[f.Decl.Pkg().Path()] {
 		engineFail("call of %s was not hoisted for inlining (nested in an unsupported position): %s", name, types.ExprString(e))
@@ -438,8 +481,21 @@ func (x *Exec) evalBuiltin(name string, e *ast.CallExpr, st *State) (Value, type
 	case "recover":
 		return x.fresh("recovered", SInt), x.typeOf(e)
 	case "copy":
-		x.evalArgs(e.Args, st)
-		engineFail("copy is not modelled")
+		dv, dt := x.eval(e.Args[0], st)
+		sv, _ := x.eval(e.Args[1], st)
+		dst, src := asTerm(dv), asTerm(sv)
+		sl, ok := dt.Underlying().(*types.Slice)
+		if !ok || src.Sort != SInt {
+			engineFail("copy on %s is not modelled", dt)
+		}
+		es := x.sortOf(sl.Elem())
+		n := x.fresh("ncopy", SInt)
+		st.assume(fmt.Sprintf("(= %s (ite (<= %s %s) %s %s))", n.S, x.slen(dst).S, x.slen(src).S, x.slen(dst).S, x.slen(src).S))
+		oldArr, srcArr := x.sliceArr(st, dst, es), x.sliceArr(st, src, es)
+		na := x.fresh("copied", arraySort(SInt, es))
+		st.assume(fmt.Sprintf("(forall ((i Int)) (! (= (select %s i) (ite (and (<= 0 i) (< i %s)) (select %s i) (select %s i))) :pattern ((select %s i))))", na.S, n.S, srcArr.S, oldArr.S, na.S))
+		x.sliceSetArr(st, dst, es, na)
+		return n, types.Typ[types.Int]
 	case "delete":
 		mv, mt := x.eval(e.Args[0], st)
 		k := x.evalT(e.Args[1], st)
@@ -514,13 +570,22 @@ func (x *Exec) applyContract(c *Contract, f *types.Func, e *ast.CallExpr, args [
 	}
 	site := types.ExprString(e.Fun)
 	for _, r := range c.Requires {
+		if r.Prop != "" && r.Prop != x.prop {
+			continue // a precondition that belongs to another property's reading of the contract
+		}
+		if r.Prop == "assume" {
+			continue
+		}
 		lab := r.Label
 		if lab == "" {
 			lab = "requires"
 		}
 		phi := x.evalBool(r.Expr, st)
 		x.contract = false
-		x.oblige(st, "pre", lab+"@"+site, phi, r.Src)
+		ob := x.oblige(st, "pre", lab+"@"+site, phi, r.Src)
+		if r.Prop != "" {
+			ob.Prop = r.Prop
+		}
 		x.contract = true
 	}
 	for _, p := range c.Panics {
@@ -567,9 +632,11 @@ func (x *Exec) applyContract(c *Contract, f *types.Func, e *ast.CallExpr, args [
 	oldSave := st.old
 	st.old = pre
 	if c.Opts["opaque"] != "true" {
+		x.assuming = true
 		for _, en := range c.Ensures {
 			st.assume(x.evalBool(en.Expr, st))
 		}
+		x.assuming = false
 	}
 	st.old = oldSave
 	if c.Trusted {
@@ -618,10 +685,7 @@ func (x *Exec) evalSpecCall(e *ast.CallExpr, st *State) (Value, types.Type) {
 	switch name {
 	case "implies":
 		a := x.evalBool(e.Args[0], st)
-		n := len(st.pc)
-		st.pc = append(st.pc, a)
-		b := x.evalBool(e.Args[1], st)
-		st.pc = st.pc[:n]
+		b := x.evalGuarded(e.Args[1], st, a)
 		return Term{implies(a, b), SBool}, types.Typ[types.Bool]
 	case "iff":
 		return Term{"(= " + x.evalBool(e.Args[0], st) + " " + x.evalBool(e.Args[1], st) + ")", SBool}, types.Typ[types.Bool]
@@ -687,12 +751,21 @@ func (x *Exec) evalSpecCall(e *ast.CallExpr, st *State) (Value, types.Type) {
 		ks, vs := x.sortOf(u.Key()), x.sortOf(u.Elem())
 		m := asTerm(mv)
 		return Term{"(and (not (= " + m.S + " 0)) (select " + x.mapHas(st, m, ks, vs).S + " " + k.S + "))", SBool}, types.Typ[types.Bool]
-	case "fresh": // fresh(x): allocated during this call
+	case "fresh": // fresh(x): x was allocated during this call (it is one of the references created on this path)
 		v := x.evalT(e.Args[0], st)
-		if st.names["$fresh:"+v.S] == true {
-			return boolLit(true), types.Typ[types.Bool]
+		if x.assuming {
+			// a callee's postcondition: the result is a new reference, distinct from null
+			st.names["$fresh:"+v.S] = true
+			return Term{"(> " + v.S + " 0)", SBool}, types.Typ[types.Bool]
 		}
-		return boolLit(false), types.Typ[types.Bool]
+		var alts []string
+		for k, ok := range st.names {
+			if strings.HasPrefix(k, "$fresh:") && ok == true {
+				alts = append(alts, "(= "+v.S+" "+strings.TrimPrefix(k, "$fresh:")+")")
+			}
+		}
+		sort.Strings(alts)
+		return Term{or(alts...), SBool}, types.Typ[types.Bool]
 	case "substr":
 		s, a, b := x.evalT(e.Args[0], st), x.evalT(e.Args[1], st), x.evalT(e.Args[2], st)
 		return Term{"(str.substr " + s.S + " " + a.S + " (- " + b.S + " " + a.S + "))", SStr}, types.Typ[types.String]
